@@ -65,13 +65,20 @@ SUITES = [
      "runs": [(["record", "{tier}"], None), (["fmt", "{tier}"], None), (["exec"], belt_exec_cmds),
               (["steps"], steps_cmds), (["overlap"], overlap_cmds)]},
 ]
-# suites contributed by the other checks register themselves: every checks/suite_*.py with a SUITES list
-for _f in sorted(glob.glob(os.path.join(os.path.dirname(os.path.abspath(__file__)), "suite_*.py"))):
+# suites contributed by the other checks: checks/suite_<name>.py with a SUITES list, enabled by a line
+# "<name>" in checks/suites_enabled.txt (a suite is enabled once its builder reports it deterministic,
+# word-size independent at the level of its logged lines, and clean on the unchanged tree)
+_here = os.path.dirname(os.path.abspath(__file__))
+try:
+    _enabled = [l.strip() for l in open(os.path.join(_here, "suites_enabled.txt")) if l.strip() and not l.startswith("#")]
+except OSError:
+    _enabled = []
+for _name in _enabled:
     try:
-        m = __import__(os.path.basename(_f)[:-3])
+        m = __import__("suite_" + _name)
         SUITES += m.SUITES
-    except Exception as _e:      # a half-written suite of a builder must not break C07 / C19
-        vlib.log("[suites] %s not loaded: %s" % (os.path.basename(_f), _e))
+    except Exception as _e:
+        vlib.log("[suites] suite_%s not loaded: %s" % (_name, _e))
 
 
 def run_suite(ctx, suite, variant, tier, fmt_quick=True):
